@@ -178,6 +178,10 @@ CheckReturn(P, T, sm, s, ln) ==
         prodn(n) == SelectSeq(s.log, LAMBDA x : (IsBE(x) /\ x[2] = n /\ x[4][1] = "ok") \/ (IsDF(x) /\ x[2] = n))
         lastprod(n) == LET q == prodn(n) IN LET x == q[Len(q)] IN IF IsBE(x) THEN x[4][2] ELSE x[4]
         savesn(n) == SelectSeq(s.log, LAMBDA x : IsSV(x) /\ x[2] = n)
+        (* the engine cancelled n's task inside a suspended collaborator call after n's last production: the
+           completion path of n (store, save, notify) was cut short, no artifact is due *)
+        cutshort(n) == LET lp == LastIdx(s.log, LAMBDA x : (IsBE(x) /\ x[2] = n /\ x[4][1] = "ok") \/ (IsDF(x) /\ x[2] = n))
+                       IN  \E j \in 1..Len(s.log) : j > lp /\ s.log[j][1] = "CUT" /\ s.log[j][2] = n
         lastev == LastIdx(s.log, IsEV)
         npc == Count(s.log, LAMBDA x : IsEV(x) /\ x[2] = "pipeline_complete")
     IN
@@ -226,6 +230,7 @@ CheckReturn(P, T, sm, s, ln) ==
       (IF kind = "value"
        THEN UNION {IF Len(prodn(n)) = 0
                    THEN (IF Len(savesn(n)) = 0 THEN {} ELSE {"C19.value"})
+                   ELSE IF Len(savesn(n)) = 0 /\ cutshort(n) THEN {}
                    ELSE (IF Len(savesn(n)) # 1
                          THEN (IF \E i \in 1..Len(P.rec_inside) : P.rec_inside[i] = n
                                THEN {"C19.once_rec"} ELSE {"C19.once"})
@@ -267,6 +272,7 @@ ApplyLine(S, ln) ==
       [] ln.e = "BodyEnd"   -> Upd(S, ln.r, LAMBDA s : AppendLog(s, <<"BE", ln.n, ln.kw, ln.out, ln.t>>))
       [] ln.e = "Default"   -> Upd(S, ln.r, LAMBDA s : AppendLog(s, <<"DF", ln.n, ln.kw, ln.out>>))
       [] ln.e = "Save"      -> Upd(S, ln.r, LAMBDA s : AppendLog(s, <<"SV", ln.n, ln.v>>))
+      [] ln.e = "Cut"       -> Upd(S, ln.r, LAMBDA s : AppendLog(s, <<"CUT", ln.n, ln.what>>))
       [] ln.e = "Ev" ->
             Upd(S, ln.r, LAMBDA s :
                 LET ce == CurExec(s.log, ln.n)
